@@ -404,6 +404,15 @@ impl Renderable for TableRow {
             .trace_with(|| self.trace().into())?;
         let array = range.evaluate()?;
         let cols = evaluate_attr(&self.cols, runtime)?;
+        if let Some(cols) = cols {
+            // zero, or a negative number that was cast to `usize`
+            if cols == 0 || cols > i64::MAX as usize {
+                return Err(unexpected_value_error(
+                    "positive whole number for `cols`",
+                    Some(cols as i64),
+                ));
+            }
+        }
         let limit = evaluate_attr(&self.limit, runtime)?;
         let offset = evaluate_attr(&self.offset, runtime)?.unwrap_or(0);
         let array = iter_array(array, limit, offset, false);
